@@ -630,3 +630,49 @@ Example C09_bridge_unfold : forall T mat_of dens_of (cl : M5.cell T),
   mkCell (mat_of (M5.c_mat cl)) (dens_of (M5.c_rho cl)) (M5.c_imp cl) (M5.c_univ cl)
          (M5.c_fill cl) (M5.c_orig cl).
 Proof. intros. reflexivity. Qed.
+
+(* round 3: the two hypotheses of the theorem above about the returned cell are
+   discharged or weakened.  (i) [live]: C05's fill_phase_spec (C05/Proofs.v, GenOK)
+   says a returned cell keeps the container's importance and universe; a key of
+   fill_keys has universe 0; trcl_phase and inline_cells keep the fields — so the
+   returned cells are live as soon as the CONTAINER has positive importance.
+   (ii) volumes: in the shape C01_cells gives them — a returned cell has a
+   non-virtual volume (carrying its idorigin) or is empty everywhere; the cell
+   containing the point is not empty, so it has one. *)
+Theorem C09_point_composition_written_linked :
+  forall (T surf P : Type) (tr_empty : T -> bool) (teqb : T -> T -> bool)
+         (tr_surf : T -> surf -> surf) (inv : T -> P -> P) (sense : surf -> P -> bool),
+  T4V.Properties.C05.sense_law tr_surf inv sense -> T4V.Properties.C05.key_law tr_empty teqb inv ->
+  forall (mat_of : Z -> string) (dens_of : Z -> option string)
+         fuel cf ifd ifg num den (s0 s1 s2 : M5.state T surf) rs cells3,
+  P5.fresh_ok T surf s0 -> M5.s_cache s0 = [] -> NoDup (map fst (M5.s_cells s0)) ->
+  P5.all_ref_free T surf s0 ->
+  (forall c cl, M5.dget c (M5.s_cells s0) = Some cl -> M5.c_orig cl = []) ->
+  M5.trcl_phase T surf tr_empty teqb tr_surf fuel (map fst (M5.s_cells s0)) s0 = M5.Ok s1 ->
+  M5.fill_phase T surf tr_empty teqb tr_surf fuel cf ifd ifg s1 = M5.Ok (rs, s2) ->
+  M5.inline_cells T fuel num den (M5.s_cells s2) = M5.Ok cells3 ->
+  forall key ks kcl, In (key, ks) (combine (M5.fill_keys (M5.s_cells s0)) rs) ->
+  M5.dget key (M5.s_cells s0) = Some kcl -> (0 < M5.c_imp kcl)%Z ->
+  forall vols g,
+  (forall k, In k ks ->
+     (exists v ncl, In (k, v) vols /\ v_fictive v = false /\
+                    M5.dget k cells3 = Some ncl /\ v_origin v = M5.c_orig ncl) \/
+     (forall q, ~ S5.Den T surf P sense (P5.set_cells T surf s2 cells3) q (M5.TRef k) true)) ->
+  geomcomp vols (bridge_cells T mat_of dens_of cells3) = Ok g ->
+  forall p ch,
+  S5.LocW T surf P tr_empty inv sense s0 (M5.by_universe (M5.s_cells s0)) key p ch true ->
+  exists k lcl z,
+    In k ks /\
+    S5.Den T surf P sense (P5.set_cells T surf s2 cells3) p (M5.TRef k) true /\
+    M5.dget (last ch 0%Z) (M5.s_cells s0) = Some lcl /\
+    int_of_token (mat_of (M5.c_mat lcl)) = Some z /\
+    member g (material_name z (bridge T mat_of dens_of lcl)) k /\
+    (forall l d, comp_names z (bridge_cells T mat_of dens_of cells3) = Ok l ->
+                 dens_normal (bridge_cells T mat_of dens_of cells3) ->
+                 dens_of (M5.c_rho lcl) = Some d ->
+                 In ("m" ++ material_name z (bridge T mat_of dens_of lcl)) l).
+Proof.
+  intros T surf P tr_empty teqb tr_surf inv sense Hs Hk mat_of dens_of.
+  exact (point_composition_written_linked T surf P tr_empty teqb tr_surf inv sense Hs Hk mat_of dens_of).
+Qed.
+Print Assumptions C09_point_composition_written_linked.
